@@ -393,6 +393,7 @@ impl Prop for C20 {
             unix_role: case.unix_role.map(|r| rs[r as usize % rs.len()].name.clone()),
             testbed: false,
             tcp: true,
+            disk: false,
         };
         let hashes = hashes_for(&users);
         let d = match Daemon::start(&cfg, &hashes) {
